@@ -451,50 +451,46 @@ pub fn expand_glob(tokens: &mut types::Tokens) {
     }
 }
 
-fn expand_one_env(sh: &Shell, token: &str) -> String {
+/// Expand the leftmost `$NAME`, `${NAME}`, `$?` or `$$` of `token`.
+/// Returns the text up to and including the inserted value, and the rest
+/// of the token (which has not been looked at yet); `None` if the token
+/// holds no such reference.
+fn expand_one_env(sh: &Shell, token: &str) -> Option<(String, String)> {
     // do not combine these two into one: `\{?..\}?`,
     // otherwize `}` in `{print $NF}` would gone.
-    let re1 = Regex::new(r"^(.*?)\$([A-Za-z0-9_]+|\$|\?)(.*)$").unwrap();
-    let re2 = Regex::new(r"(.*?)\$\{([A-Za-z0-9_]+|\$|\?)\}(.*)$").unwrap();
-    if !re1.is_match(token) && !re2.is_match(token) {
-        return token.to_string();
-    }
-
-    let mut result = String::new();
-    let match_re1 = re1.is_match(token);
-    let match_re2 = re2.is_match(token);
-    if !match_re1 && !match_re2 {
-        return token.to_string();
-    }
-
-    let cap_results = if match_re1 {
-        re1.captures_iter(token)
-    } else {
-        re2.captures_iter(token)
+    let re1 = Regex::new(r"\$([A-Za-z0-9_]+|\$|\?)").unwrap();
+    let re2 = Regex::new(r"\$\{([A-Za-z0-9_]+|\$|\?)\}").unwrap();
+    let cap = match (re1.captures(token), re2.captures(token)) {
+        (Some(c1), Some(c2)) => {
+            if c2.get(0).unwrap().start() < c1.get(0).unwrap().start() {
+                c2
+            } else {
+                c1
+            }
+        }
+        (Some(c1), None) => c1,
+        (None, Some(c2)) => c2,
+        (None, None) => return None,
     };
 
-    for cap in cap_results {
-        let head = cap[1].to_string();
-        let tail = cap[3].to_string();
-        let key = cap[2].to_string();
-        if key == "?" {
-            result.push_str(format!("{}{}", head, sh.previous_status).as_str());
-        } else if key == "$" {
-            unsafe {
-                let val = libc::getpid();
-                result.push_str(format!("{}{}", head, val).as_str());
-            }
-        } else if let Ok(val) = env::var(&key) {
-            result.push_str(format!("{}{}", head, val).as_str());
-        } else if let Some(val) = sh.get_env(&key) {
-            result.push_str(format!("{}{}", head, val).as_str());
-        } else {
-            result.push_str(&head);
+    let m = cap.get(0).unwrap();
+    let head = &token[..m.start()];
+    let tail = &token[m.end()..];
+    let key = &cap[1];
+    let mut result = String::from(head);
+    if key == "?" {
+        result.push_str(&sh.previous_status.to_string());
+    } else if key == "$" {
+        unsafe {
+            let val = libc::getpid();
+            result.push_str(&val.to_string());
         }
-        result.push_str(&tail);
+    } else if let Ok(val) = env::var(key) {
+        result.push_str(&val);
+    } else if let Some(val) = sh.get_env(key) {
+        result.push_str(&val);
     }
-
-    result
+    Some((result, tail.to_string()))
 }
 
 fn need_expand_brace(line: &str) -> bool {
@@ -772,6 +768,14 @@ fn expand_home(tokens: &mut types::Tokens) {
     }
 }
 
+/// whether `token` holds a `$NAME`, `${NAME}`, `$?` or `$$` reference at all
+fn has_env_ref(token: &str) -> bool {
+    if libs::re::re_contains(token, r"\$\{?[\$\?]\}?") {
+        return true;
+    }
+    libs::re::re_contains(token, r"\$\{?[a-zA-Z_][a-zA-Z0-9_]*\}?")
+}
+
 fn env_in_token(token: &str) -> bool {
     if libs::re::re_contains(token, r"\$\{?[\$\?]\}?") {
         return true;
@@ -815,10 +819,20 @@ pub fn expand_env(sh: &Shell, tokens: &mut types::Tokens) {
             continue;
         }
 
-        let mut _token = token.clone();
-        while env_in_token(&_token) {
-            _token = expand_one_env(sh, &_token);
+        // one pass from left to right: a value that has been inserted is
+        // final and is not scanned for references again.
+        let mut _token = String::new();
+        let mut rest = token.clone();
+        while has_env_ref(&rest) {
+            match expand_one_env(sh, &rest) {
+                Some((done, tail)) => {
+                    _token.push_str(&done);
+                    rest = tail;
+                }
+                None => break,
+            }
         }
+        _token.push_str(&rest);
         buff.push((idx, _token));
         idx += 1;
     }
